@@ -62,6 +62,17 @@ def generate(tier, rng):
                     mn, mx = None, rng.choice(times) - rng.choice([1, 1, 7])
             cases.append({"op": "save", "fam": "B", "g": g, "vals": None, "blanks": rng.random() < 0.7, "mn": mn, "mx": mx,
                           "thr": rng.choice([None, 1e-8, 1e-8]), "scale": ["dyadic", K]})
+    # a tier as long as a transcribed hour (a thousand entries and more), labels with quotes among them
+    for _ in range(1 if tier == "quick" else 5):
+        nent = rng.randint(1000, 1250)
+        ents, x = [], 0
+        for _k in range(nent):
+            d = rng.randint(20, 60)
+            ents.append([x, x + d, iogen.rand_label(rng, 5) if rng.random() < 0.9 else 'say "so"'])
+            x += d + (rng.randint(20, 40) if rng.random() < 0.1 else 0)
+        g = {"xmin": 0, "xmax": x, "tiers": [{"isint": True, "name": "long", "xmin": 0, "xmax": x, "entries": ents},
+                                             {"isint": False, "name": "p", "xmin": 0, "xmax": x, "entries": [[7, 'a"b']]}]}
+        cases.append({"op": "save", "fam": "B", "g": g, "vals": None, "blanks": True, "mn": None, "mx": None, "thr": None, "scale": ["dyadic", K]})
     return cases
 
 
